@@ -42,6 +42,9 @@ import (
 
 const sigLimitExact = "limit-exact-body-rejected"
 
+// hung is set when the handler did not answer: a definitive failure; generation stops.
+var hung bool
+
 type jpoint struct {
 	Key  string `json:"key"`
 	Time int64  `json:"time"`
@@ -238,20 +241,21 @@ func exec(c *jcase) (status int, respBody []byte, calls [][]jpoint, fail string)
 			if p != "" {
 				return 0, nil, pw.calls, "panic: " + p
 			}
-		case <-time.After(20 * time.Second):
-			return 0, nil, nil, "hang: no response after 20s"
+		case <-time.After(10 * time.Second):
+			hung = true
+			return 0, nil, nil, "hang: the handler did not answer within 10s"
 		}
 		return w.Code, w.Body.Bytes(), pw.calls, ""
 	}
 	// a real HTTP server and a raw client connection
 	srv := httptest.NewServer(h)
-	defer srv.Close()
+	defer func() { go srv.Close() }() // Close blocks while a handler is still running
 	conn, err := net.Dial("tcp", srv.Listener.Addr().String())
 	if err != nil {
 		return 0, nil, nil, "dial: " + err.Error()
 	}
 	defer conn.Close()
-	conn.SetDeadline(time.Now().Add(20 * time.Second))
+	conn.SetDeadline(time.Now().Add(10 * time.Second))
 	var req bytes.Buffer
 	fmt.Fprintf(&req, "POST /api/v2/write?%s HTTP/1.1\r\nHost: x\r\nConnection: close\r\n", query(c))
 	if c.Encoding != "" {
@@ -280,7 +284,11 @@ func exec(c *jcase) (status int, respBody []byte, calls [][]jpoint, fail string)
 	}
 	resp, err := http.ReadResponse(bufio.NewReader(conn), nil)
 	if err != nil {
-		return 0, nil, pw.calls, "read response: " + err.Error()
+		if ne, ok := err.(net.Error); ok && ne.Timeout() {
+			hung = true
+			return 0, nil, nil, "hang: the server did not answer within 10s"
+		}
+		return 0, nil, nil, "read response: " + err.Error()
 	}
 	defer resp.Body.Close()
 	bb, _ := io.ReadAll(resp.Body)
@@ -518,7 +526,7 @@ func main() {
 		run(w, &c)
 	}
 	// ---- generated
-	for w.Len() < w.N {
+	for w.Len() < w.N && !hung {
 		c := base("gen")
 		nbad := 0
 		if r.IntN(3) == 0 {
